@@ -9,7 +9,7 @@
     challenge handler answered; [None]: the wrapped handler ran), [alpn_get] = the TLS-ALPN
     branch of GetCertificate.  [sf] = KeyBuilder.Safe, [feq] = simple case folding of two code
     points (strings.EqualFold), [issuers] = the issuer keys of Config.Issuers: all arbitrary. *)
-From CM Require Import Lib.Str Gen.Consts Safe.Model Challenge.Assoc Challenge.Model Challenge.Proofs.
+From CM Require Import Lib.Str Gen.Consts Safe.Model Challenge.Assoc Challenge.Model Challenge.Proofs Challenge.RevProofs Challenge.Tie.
 
 (** Key authorization is written only for GET of exactly <base>/<token> with a Host that folds to
     the identifier of a challenge that is pending, and it is that challenge's key authorization.
@@ -188,7 +188,7 @@ Proof. vm_compute. repeat split; try reflexivity. right; left; reflexivity. Qed.
 (** hostOnly / challengeHost on the Host forms of the property text *)
 Example C15_host_forms :
   let s := fun l => challenge_host l in
-  s [91;58;58;49;93] = [58;58;49] /\                       (* "[::1]"      -> "::1" (fixed: 55f24a9) *)
+  s [91;58;58;49;93] = [58;58;49] /\                       (* "[::1]"      -> "::1" (fixed: 5887f0d) *)
   s [91;58;58;49;93;58;56;48] = [58;58;49] /\              (* "[::1]:80"   -> "::1" *)
   s [58;58;49] = [58;58;49] /\                             (* "::1"        -> "::1" *)
   s [97;46;98;58;56;48] = [97;46;98] /\                    (* "a.b:80"     -> "a.b" *)
@@ -199,9 +199,38 @@ Example C15_host_forms :
 Proof. vm_compute. repeat split; reflexivity. Qed.
 
 (** the sanitized-key collision that used to leak the certificate: with the identifier check
-    (fixed: b727ac2) SNI "a.example#" finds nothing although its storage key is that of "a.example" *)
+    (fixed: d859c14) SNI "a.example#" finds nothing although its storage key is that of "a.example" *)
 Example C15_safe_collision_closed :
   let sni := [97;46;101;120;97;109;112;108;101;35] in
   ex_sf sni = ex_sf (c_ident ex_c) /\
   alpn_get ex_sf ex_feq ex_issuers false (run ex_sf ex_issuers ex_ops) sni [acme_tls1_protocol] = AErr.
 Proof. vm_compute. split; reflexivity. Qed.
+
+(** * The key of an IP identifier under TLS-ALPN-01 (RFC 8738: the SNI is the reverse-mapping name)
+    [rev_name] models dns.ReverseAddr on the address bytes (4: IPv4 / IPv4-mapped, 16: IPv6); the
+    harness validates it against the library on every run.  Different addresses never share a
+    reverse-mapping name, hence never a challenge key: together with [C15_alpn_only_acme] the
+    challenge certificate of one address is never presented for another. *)
+Theorem C15_reverse_name_injective : forall b1 b2 n, bytes b1 -> bytes b2 ->
+  rev_name b1 = Some n -> rev_name b2 = Some n -> b1 = b2.
+Proof. exact rev_name_injective. Qed.
+Print Assumptions C15_reverse_name_injective.
+
+Theorem C15_ip_challenge_key_injective : forall c1 c2 b1 b2,
+  c_type c1 = TTlsAlpn -> c_type c2 = TTlsAlpn -> c_is_ip c1 = true -> c_is_ip c2 = true ->
+  bytes b1 -> bytes b2 -> c_rev c1 = rev_name b1 -> c_rev c2 = rev_name b2 ->
+  c_rev c1 <> None -> c_rev c2 <> None ->
+  challenge_key c1 = challenge_key c2 -> b1 = b2.
+Proof. exact ip_challenge_key_injective. Qed.
+Print Assumptions C15_ip_challenge_key_injective.
+
+(** 192.0.2.7 -> 7.2.0.192.in-addr.arpa. ; 2001:db8::7 -> 7.0.0...0.8.b.d.0.1.0.0.2.ip6.arpa. ; the
+    hypotheses of the two theorems are satisfiable *)
+Example C15_reverse_names :
+  rev_name [192; 0; 2; 7] = Some [55;46;50;46;48;46;49;57;50;46;105;110;45;97;100;100;114;46;97;114;112;97;46] /\
+  option_map (@length N) (rev_name [32;1;13;184;0;0;0;0;0;0;0;0;0;0;0;7]) = Some 73%nat /\
+  option_map (firstn 4) (rev_name [32;1;13;184;0;0;0;0;0;0;0;0;0;0;0;7]) = Some [55;46;48;46] /\
+  bytes [192; 0; 2; 7] /\ rev_name [192; 0; 2] = None /\
+  challenge_key (Chal TTlsAlpn [116] [107] true [49] (rev_name [192; 0; 2; 7])) =
+    [55;46;50;46;48;46;49;57;50;46;105;110;45;97;100;100;114;46;97;114;112;97].
+Proof. vm_compute. repeat split; try reflexivity. repeat constructor. Qed.
